@@ -283,7 +283,7 @@ var lens = []int{1, 1, 2, 3, 4, 5, 7, 8, 9, 15, 16, 17, 31, 33, 63, 64, 65, 66, 
 
 // pickRange chooses (off, n) for element type t; n is a positive multiple of
 // t.Unit (equal to it for fixed types) and the range lies inside the arena.
-func (m *ctxModel) pickRange(r *vlib.PRNG, t elemType, maxLen int) (int, int) {
+func (m *ctxModel) pickRange(r *vlib.PRNG, t elemType, maxLen int, inBounds bool) (int, int) {
 	S := len(m.shadow)
 	pts := m.points()
 	pagePts := []int{}
@@ -353,6 +353,19 @@ func (m *ctxModel) pickRange(r *vlib.PRNG, t elemType, maxLen int) (int, int) {
 			n = 1 + r.Intn(16)
 		}
 		off, n = fit(off, n)
+		if off >= 0 && inBounds && m.classify(off, n).Slack {
+			// DMA path: stay inside the requested extents of the buffers (the
+			// driver tracks dirtiness per requested extent); shrink towards the
+			// buffer that holds the start if that is enough
+			b := m.bufs[m.bufAt(off)]
+			if off < b.Off+b.Size {
+				n2 := (b.Off + b.Size - off) / t.Unit * t.Unit
+				if t.Slice && n2 >= t.Unit && try%2 == 1 {
+					return off, min(n, n2)
+				}
+			}
+			continue
+		}
 		if off >= 0 {
 			return off, n
 		}
